@@ -82,8 +82,8 @@ def run(tier, seed):
         for f in rep7["failures"]:
             f["case"] = {"mode": "listener", "case": f["case"]}
         fails += rep7["failures"]
-        if not rep7["failures"] and rep7["counters"].get("stages_reached", 0) < 6:
-            raise common.ToolError(f"node_fuzz reached only {rep7['counters'].get('stages_reached')} of 6 stages: the honest prefixes do not work")
+        if not rep7["failures"] and rep7["counters"].get("stages_reached", 0) < 7:
+            raise common.ToolError(f"node_fuzz reached only {rep7['counters'].get('stages_reached')} of 7 stages: the honest prefixes do not work")
     evals += rep7["evaluations"]
     distinct += rep7["distinct"]
     cov = {"states": total_paths, "transitions": evals, "traces_validated_against_impl": rep1["evaluations"], "samples": samples[:4],
